@@ -92,7 +92,7 @@ NEEDS = {
     "C03-3": ("when_all_vector::finish reads the error/stopped flag before decrementing the completion counter",
               "one failing and one succeeding input completing concurrently; the value child reads the flag, the sibling runs its whole error path, the value child then is last and signals set_value"),
     "C04-3": ("hand-written move assignment of async_rw_mutex does not take over prev_access",
-              "a = std::move(b) where a's last request was a read and b's last request a still outstanding readwrite, then a.read() (outside the property's quantification: the checks never move-assign the mutex object)"),
+              "a = std::move(b) where a's last request was a read and b's last request a still outstanding readwrite, then a.read()"),
     "C05-3": ("local_priority_queue_scheduler::create_thread increments the global activity count after the task became visible",
               "a task that creates a child and is delayed right after the child became visible; the child finishes first and the count drops to 0 while wait()/stop() look at it"),
     "C06-3": ("recursive_mutex_impl::unlock stores the recursion count non-atomically after releasing the inner lock",
@@ -118,13 +118,13 @@ NEEDS = {
     "C16-3": ("the abbreviation matching of pika.scheduler tests the longer names first",
               "the resolved value 'local' or 'static' from any source (they are prefixes of longer policy names)"),
     "C17-3": ("moodycamel ConcurrentQueue recycles an inactive producer slot with load+store instead of a CAS",
-              "a producer thread that has exited and at least two new threads whose first push happens within a few instructions (NOT caught by the checks, see DESIGN.md)"),
+              "a producer thread that has exited and at least two new threads whose first push happens within a few instructions"),
     "C18-3": ("any_receiver::set_value moves from its arguments instead of forwarding them",
               "a wrapped sender that completes with an l-value reference to a non-trivially movable object"),
     "C19-3": ("staged tasks are never taken over from other workers (the idle-loop threshold can never be reached)",
-              "all workers of an elastic pool asleep, tasks submitted, only some workers resumed, then a pool suspend that waits for the drain (NOT caught by the checks, see DESIGN.md)"),
+              "all workers of an elastic pool asleep, tasks submitted, only some workers resumed, then a pool suspend that waits for the drain"),
     "C20-3": ("can_run_singlethreaded tests the wrong completion-mode bit",
-              "a dedicated MPI polling pool with request_inline set and completion_inline clear while several threads post requests (NOT caught by the checks, see DESIGN.md)"),
+              "a dedicated MPI polling pool with request_inline set and completion_inline clear while several threads post requests"),
     "C06-2": ("mutex::try_lock tests the owner before taking the internal spinlock",
               "two simultaneous acquisitions of a free mutex, at least one of them try_lock"),
 }
